@@ -151,6 +151,7 @@ type Kernel struct {
 	wake         chan struct{}
 	seenMutex    map[interface{}]bool
 	frozen       map[interface{}]bool // mutexes of a crashed server incarnation: never granted again
+	frozenG      map[string]bool      // goroutines (by name) whose lock requests are not granted for the time being: a descheduled thread
 	Epoch        int
 	owners       map[interface{}]*lockReq
 	gnames       map[uint64]string
@@ -686,7 +687,7 @@ func (k *Kernel) enabledActions() []action {
 	})
 	contended := 0
 	for i, r := range k.lockReqs {
-		if k.frozen[r.m] {
+		if k.frozen[r.m] || k.frozenG[r.gname] {
 			continue
 		}
 		if i > 0 && k.lockReqs[i-1].gname == r.gname && k.lockReqs[i-1].site == r.site && !k.frozen[k.lockReqs[i-1].m] {
@@ -1038,14 +1039,20 @@ func (k *Kernel) Advance(d time.Duration) {
 	k.Stats.SimMs = k.NowMs()
 }
 
-// SleepHolding lets d of simulated time pass without performing any enabled action first: goroutines that are parked
-// (waiting for the driver to grant a lock or a write) stay parked, and goroutines woken by timers during d run until
-// they park. It models threads that are descheduled while holding locks (a stalled node) when timers are due.
-func (k *Kernel) SleepHolding(d time.Duration) {
-	synctest.Wait()
-	time.Sleep(d)
-	synctest.Wait()
-	k.Stats.SimMs = k.NowMs()
+// Deschedule stops (on=true) or resumes granting lock requests of the task's goroutine: the thread is descheduled at its
+// next lock acquisition, possibly while it holds other locks, and everything else - timers included - goes on
+// (Advance works as usual meanwhile). It models a stalled thread deterministically.
+func (k *Kernel) Deschedule(t *Task, on bool) {
+	k.mu.Lock()
+	if k.frozenG == nil {
+		k.frozenG = map[string]bool{}
+	}
+	if on {
+		k.frozenG["task:"+t.Name] = true
+	} else {
+		delete(k.frozenG, "task:"+t.Name)
+	}
+	k.mu.Unlock()
 }
 
 func (k *Kernel) poke() {
